@@ -429,7 +429,7 @@ def run_check(prop, tier, verif_seed=None, workers=None, n_override=None):
     if workers is None:
         workers = int(os.environ.get("CARDSIM_WORKERS", min(16, os.cpu_count() or 1)))
     n_runs = n_override or engine.BUDGET[tier]
-    timeout_s = getattr(engine, "RUN_TIMEOUT_S", 120)
+    timeout_s = int(os.environ.get("CARDSIM_RUN_TIMEOUT", getattr(engine, "RUN_TIMEOUT_S", 120)))
     chunk = getattr(engine, "CHUNK", 1)
     n_samples = 3
 
